@@ -7,6 +7,7 @@ element).  Values that must be concrete (float->int conversions, min/max, floor/
 constants in disguise (dag.const_value), e.g. the refinement percentage (rr - R0)/(Rmax - R0) for rr = R0 + p*span.
 """
 import math
+import re
 from fractions import Fraction
 
 from . import dag, ir
@@ -94,6 +95,63 @@ class GenDomain(OpsDomain):
                 if isinstance(v, SetIter):
                     return SetIter(v.s, v.pos)
             return SetIter(None, 0)
+        if k == "OpCall" and e.get("op") in ("==", "!=") and callee.startswith("__gnu_cxx::operator") and len(args) == 2:
+            from .conc import PtrInto
+            a_, b_ = it.rvalue(args[0], fr), it.rvalue(args[1], fr)
+            if isinstance(a_, PtrInto) and isinstance(b_, PtrInto) and a_.arr is b_.arr:
+                return (a_.off == b_.off) if e["op"] == "==" else (a_.off != b_.off)
+        # ---- std algorithms over iterator pairs into a vector, with lambdas / comparison functors
+        if k == "Construct" and re.match(r"^std::(greater_equal|greater|less|less_equal|equal_to)<", t):
+            return ("functor", re.match(r"^std::(\w+)<", t).group(1))
+        if k == "Call" and base in ("std::all_of", "std::any_of", "std::none_of", "std::find_if", "std::find_if_not", "std::adjacent_find", "std::lower_bound", "std::upper_bound", "std::find", "std::count_if") and len(args) >= 2:
+            from .conc import PtrInto
+            vals = [it.rvalue(a, fr) for a in args]
+            first, last = vals[0], vals[1]
+            if not (isinstance(first, PtrInto) and isinstance(last, PtrInto) and first.arr is last.arr):
+                raise AnalysisBroken("%s on something that is not an iterator pair into one vector at %s" % (base, ir.locstr(e)))
+            arr = first.arr
+
+            def elem(i):
+                return self.elem_class()(arr, i, self, ir.locstr(e)).get()
+
+            def apply(fn, *xs):
+                if isinstance(fn, tuple) and fn and fn[0] == "lambda":
+                    r = self.call_lambda(fn, list(xs), e)
+                elif isinstance(fn, tuple) and fn and fn[0] == "functor":
+                    op = {"greater_equal": ">=", "greater": ">", "less": "<", "less_equal": "<=", "equal_to": "=="}[fn[1]]
+                    r = self.binop(op, xs[0], xs[1], e, fr)
+                else:
+                    raise AnalysisBroken("callable %r in %s not modelled at %s" % (fn, base, ir.locstr(e)))
+                return it.truth(r, e, fr)
+            lo, hi = first.off, last.off
+            m_ = base[5:]
+            if m_ in ("all_of", "any_of", "none_of", "count_if"):
+                res = [apply(vals[2], elem(i)) for i in range(lo, hi)]
+                return all(res) if m_ == "all_of" else any(res) if m_ == "any_of" else (not any(res)) if m_ == "none_of" else sum(1 for x in res if x)
+            if m_ in ("find_if", "find_if_not"):
+                for i in range(lo, hi):
+                    if apply(vals[2], elem(i)) == (m_ == "find_if"):
+                        return PtrInto(arr, i)
+                return PtrInto(arr, hi)
+            if m_ == "find":
+                for i in range(lo, hi):
+                    if it.truth(self.binop("==", elem(i), vals[2], e, fr), e, fr):
+                        return PtrInto(arr, i)
+                return PtrInto(arr, hi)
+            if m_ == "adjacent_find":
+                fn = vals[2] if len(vals) > 2 else ("functor", "equal_to")
+                for i in range(lo, hi - 1):
+                    if apply(fn, elem(i), elem(i + 1)):
+                        return PtrInto(arr, i)
+                return PtrInto(arr, hi)
+            if m_ in ("lower_bound", "upper_bound"):
+                # first position whose element is not less than (lower) / greater than (upper) the value; the range is the caller's
+                # business to keep sorted, as for the real algorithm
+                for i in range(lo, hi):
+                    c_ = self.binop("<" if m_ == "lower_bound" else "<=", elem(i), vals[2], e, fr)
+                    if not it.truth(c_, e, fr):
+                        return PtrInto(arr, i)
+                return PtrInto(arr, hi)
         if k == "Call" and base in ("std::min", "std::max") and len(args) == 2:
             a, b = self.fold(it.rvalue(args[0], fr)), self.fold(it.rvalue(args[1], fr))
             if is_sym(a) or is_sym(b):
